@@ -64,6 +64,12 @@ ASqrtTerm(c, q) == IF RIsZero(c) \/ RIsZero(q) THEN AZero
                    ELSE IF RIsSquare(q) THEN ARat(RMul(c, RSqrt(q)))
                    ELSE [r |-> RZero, s |-> <<<<c, q>>>>]
 
+\* compact output form for the harness: <<n, d, c1n, c1d, q1n, q1d, c2n, ...>>
+RECURSIVE TermsOut(_)
+TermsOut(s) == IF s = <<>> THEN <<>> ELSE <<s[1][1][1], s[1][1][2], s[1][2][1], s[1][2][2]>> \o TermsOut(Tail(s))
+AlgOut(a) == <<a.r[1], a.r[2]>> \o TermsOut(a.s)
+XOut(x) == [i \in DOMAIN x |-> [e \in DOMAIN x[i] |-> AlgOut(x[i][e])]]
+
 (* ------------------------------------------------------------ shapes *)
 NArgs(c) == Len(c.train)
 TrIndex(c, i) == Cardinality({j \in 1..i : c.train[j]})           \* position of argument i among the trainable ones
@@ -150,10 +156,10 @@ ElemUpd(c, g, a, s, t1) ==
     [] OTHER -> [a |-> a, s |-> s, d |-> AZero, ok |-> FALSE]
 
 (* ------------------------------------------------------------ one public call *)
-\* call = [k |-> "step" | "cost" | "cost_gf" | "reset", rc |-> recompute_tensor, o |-> objective]
+\* call = [k |-> "step" | "cost" | "cost_gf" | "reset", rc |-> recompute_tensor, o |-> objective, ks |-> <<>>]
 \* result: ok = "ok" | "inadmissible" (outside the exact fragment) | "undefined" (formula divides by zero);
 \*         st = state after the call; cost = f(x(t)) (the pre-step parameters); g = gradient used;
-\*         u = natural-gradient direction (qng kinds, else g); shc = f at the point where the gradient was taken
+\*         u = natural-gradient direction (qng kinds, else g); shc = f at the point where nesterov takes the gradient
 Fail(c, st, why) == [ok |-> why, st |-> st, cost |-> AZero, g |-> ZeroMat(c), u |-> ZeroMat(c), shc |-> RZero]
 Do(c, st, call) ==
   IF call.k = "reset"
@@ -173,7 +179,7 @@ Do(c, st, call) ==
          G == TLCEval([i \in 1..N |-> [e \in 1..D |-> IF c.train[i] THEN GradAt(o, p, i, e) ELSE RZero]])
          t1 == st.t + 1
          cost == CostAlg(o, st.x)
-         shc == IF AllRat(st.x) THEN CostRat(o, p) ELSE RZero
+         shc == IF c.kind = "nesterov" THEN CostRat(o, p) ELSE RZero
      IN IF c.kind \in QngKinds
         THEN LET mt == IF call.rc \/ st.mt = <<>> THEN TLCEval([j \in 1..NTrain(c) |-> RegMetric(c, o, j)]) ELSE st.mt IN
              IF \E j \in 1..NTrain(c) : ~MOk(mt[j], D) THEN Fail(c, st, "undefined")
@@ -192,8 +198,9 @@ Do(c, st, call) ==
                       ns == TLCEval([i \in 1..N |-> [e \in 1..D |-> IF c.train[i] THEN W[i][e].s ELSE st.sm[i][e]]])
                   IN [ok |-> "ok", st |-> [st EXCEPT !.x = nx, !.xprev = st.x, !.acc = na, !.sm = ns, !.t = t1], cost |-> cost, g |-> G, u |-> G, shc |-> shc]
 
-\* which calls make sense for which optimizer
-Applicable(c, call) == /\ (call.k = "reset" => c.kind \in ResetKinds)
+\* which calls make sense for which optimizer (call.ks: restriction of an alphabet entry to some optimizers, <<>> = all)
+Applicable(c, call) == /\ (call.ks = <<>> \/ \E j \in 1..Len(call.ks) : call.ks[j] = c.kind)
+                       /\ (call.k = "reset" => c.kind \in ResetKinds)
                        /\ (~call.rc => (c.kind \in QngKinds /\ call.k # "reset"))
 
 (* ------------------------------------------------------------ range guard (TLC integers are 32 bit; an overflow is an error, never silent) *)
